@@ -293,8 +293,9 @@ pub fn measure(kind: Kind, pattern: Pattern, n: usize, seed: u64) -> Measured {
     // ---- a whole drain by single extractions (ends chosen by the seed): every one of them is a
     // request with its own deadline, also the one that takes the length below a quarter or an
     // eighth of what the queue once held (where an implementation might decide to tidy up)
+    // (up to 2^17 elements: a drain of a million elements would dominate the whole measurement)
     let mut q4 = q4;
-    while !q4.is_empty() {
+    while !q4.is_empty() && n <= (1 << 17) {
         let e = if r.chance(1, 2) { End::Min } else { End::Max };
         let (t, _) = timed(|| q4.pop(e));
         rec(&mut m.log_ops, "pop_while_draining", t);
